@@ -436,6 +436,15 @@ func requiredExpressible(sp *spec.Spec, t *spec.Type, tree any, metaTop map[stri
 				}
 			}
 		}
+	case spec.Union:
+		// the value of the selected alternative is a message like any other
+		if alt, uv, ok := vtree.IsUnion(tree); ok {
+			for _, a := range rt.Attrs {
+				if a.Name == alt {
+					return requiredExpressible(sp, a.Type, uv, nil, path+"|"+alt, depth+1)
+				}
+			}
+		}
 	}
 	return true
 }
